@@ -416,6 +416,101 @@ def op_multiply_scalar(k, v):
     return [Node('mulscalar', [k], npf=lambda a, _: a[0] * 3, cxx=lambda e, _: 'view::multiply(%s, 3)' % e[0])]
 
 
+
+# view kinds without a Lean transfer function: static knowledge vs run-time objects and NumPy only ------------------------
+
+def op_eye(k, v):
+    # no array operand: the leaf only supplies run-time numbers (its instance shape); kinds of N, M: constant / run-time
+    return [Node('eye', [k], 'ct', ct=(2, 3), npf=lambda a, _: np.eye(2, 3), cxx=lambda e, _: 'view::eye(2_ct, 3_ct)'),
+            Node('eye', [k], 'cts', ct=3, npf=lambda a, _: np.eye(3), cxx=lambda e, _: 'view::eye(3_ct)'),
+            Node('eye', [k], 'rt', N=2, rfun=lambda s: [s[0][0], s[0][-1] + 1], npf=lambda a, x: np.eye(x[0], x[1]),
+                 cxx=lambda e, x: 'view::eye((size_t)(%s)[0], (size_t)(%s)[1])' % (x, x)),
+            Node('eye', [k], 'rts', rfun=lambda s: [s[0][-1]], npf=lambda a, x: np.eye(x[0]), cxx=lambda e, x: 'view::eye((size_t)%s)' % x)]
+
+
+def op_tri(k, v):
+    return [Node('tri', [k], 'ct', ct=(2, 3), npf=lambda a, _: np.tri(2, 3), cxx=lambda e, _: 'view::tri(2_ct, 3_ct)'),
+            Node('tri', [k], 'rt', N=2, rfun=lambda s: [s[0][0], s[0][-1] + 1], npf=lambda a, x: np.tri(x[0], x[1]),
+                 cxx=lambda e, x: 'view::tri((size_t)(%s)[0], (size_t)(%s)[1])' % (x, x))]
+
+
+def op_tril(k, v):
+    if len(v) < 2:
+        return []
+    return [Node('tril', [k], 'none', npf=lambda a, _: np.tril(a[0]), cxx=lambda e, _: 'view::tril(%s)' % e[0]),
+            Node('tril', [k], 'cts', ct=1, npf=lambda a, _: np.tril(a[0], 1), cxx=lambda e, _: 'view::tril(%s, 1_ct)' % e[0]),
+            Node('triu', [k], 'rts', rfun=lambda s: [1], npf=lambda a, x: np.triu(a[0], x[0]), cxx=lambda e, x: 'view::triu(%s, %s)' % (e[0], x))]
+
+
+def _pool(a, kh, kw, sh, sw, ceil, red):
+    H, W = a.shape[-2:]
+    if H < kh or W < kw:
+        raise ValueError('kernel larger than the array')
+    f = (lambda n, k, s: -(-(n - k) // s) + 1) if ceil else (lambda n, k, s: (n - k) // s + 1)
+    oh, ow = f(H, kh, sh), f(W, kw, sw)
+    out = np.zeros(a.shape[:-2] + (oh, ow), dtype=np.int64)
+    for i in range(oh):
+        for j in range(ow):
+            out[..., i, j] = red(a[..., i * sh:i * sh + kh, j * sw:j * sw + kw].reshape(a.shape[:-2] + (-1,)), axis=-1)
+    return out
+
+
+def op_pool2d(k, v):
+    if len(v) < 2:
+        return []
+    return [Node('max_pool2d', [k], 'ct', ct=(2, 2), extra='s1.c0', npf=lambda a, _: _pool(a[0], 2, 2, 1, 1, False, np.max),
+                 cxx=lambda e, _: 'view::max_pool2d(%s, nmtools_tuple{2_ct,2_ct}, nmtools_tuple{1_ct,1_ct}, nm::False)' % e[0]),
+            Node('max_pool2d', [k], 'rt', N=2, extra='s2.c1', rfun=lambda s: [2, 2], npf=lambda a, x: _pool(a[0], x[0], x[1], 2, 2, True, np.max),
+                 cxx=lambda e, x: 'view::max_pool2d(%s, %s, std::array<int,2>{2,2}, nm::True)' % (e[0], x)),
+            Node('avg_pool2d', [k], 'rt', N=2, extra='s1.c0', rfun=lambda s: [2, 1], npf=lambda a, x: _pool(a[0], x[0], x[1], 1, 1, False, np.sum),
+                 cxx=lambda e, x: 'view::avg_pool2d(%s, %s, std::array<int,2>{1,1}, nm::False)' % (e[0], x))]
+
+
+def op_resize(k, v):
+    r = len(v)
+    t = [3, 4, 2, 2][:r]
+    # the element map of view::resize (nearest neighbour) is not NumPy's: only the shape is the reference here
+    return [Node('resize', [k], 'ct', ct=tuple(t), npf=lambda a, _, t=t: np.zeros(t, dtype=np.int64), cxx=lambda e, _, t=t: 'view::resize(%s, %s)' % (e[0], ct_tuple(t))),
+            Node('resize', [k], 'rt', N=r, rfun=lambda s, r=r: [x + 1 for x in s[0]] if len(s[0]) == r else None,
+                 npf=lambda a, x: np.zeros(x, dtype=np.int64), cxx=lambda e, x: 'view::resize(%s, %s)' % (e[0], x)),
+            Node('resize', [k], 'rtv', rfun=lambda s: [x + 2 for x in s[0]], npf=lambda a, x: np.zeros(x, dtype=np.int64),
+                 cxx=lambda e, x: 'view::resize(%s, %s)' % (e[0], x))]
+
+
+def _swv(a, w, ax):
+    return np.lib.stride_tricks.sliding_window_view(a, w, ax)
+
+
+def op_sliding_window(k, v):
+    r = len(v)
+    full = tuple([1] * (r - 1) + [2])
+    return [Node('sliding_window', [k], 'cts', ct=2, extra='axc', npf=lambda a, _, r=r: _swv(a[0], 2, r - 1),
+                 cxx=lambda e, _, r=r: 'view::sliding_window(%s, 2_ct, %d_ct)' % (e[0], r - 1)),
+            Node('sliding_window', [k], 'ct', ct=full, extra='axn', npf=lambda a, _, full=full: _swv(a[0], full, None),
+                 cxx=lambda e, _, full=full: 'view::sliding_window(%s, %s)' % (e[0], ct_tuple(full))),
+            Node('sliding_window', [k], 'rts', extra='axr', rfun=lambda s: [2], npf=lambda a, x: _swv(a[0], x[0], a[0].ndim - 1),
+                 cxx=lambda e, x: 'view::sliding_window(%s, %s, -1)' % (e[0], x)),
+            Node('sliding_window', [k], 'rt', N=r, extra='axn', rfun=lambda s, r=r: ([1] * (r - 1) + [2]) if len(s[0]) == r else None,
+                 npf=lambda a, x: _swv(a[0], tuple(x), None), cxx=lambda e, x: 'view::sliding_window(%s, %s)' % (e[0], x))]
+
+
+def op_compress(k, v):
+    return [Node('compress', [k], 'ct', ct=(1, 0), extra='axc0', npf=lambda a, _: np.compress([1, 0], a[0], 0),
+                 cxx=lambda e, _: 'view::compress(nmtools_tuple{1_ct,0_ct}, %s, 0_ct)' % e[0]),
+            Node('compress', [k], 'rt', N=2, extra='axr', rfun=lambda s: [0, 1] if s[0][-1] >= 2 else None,
+                 npf=lambda a, x: np.compress(x, a[0], a[0].ndim - 1), cxx=lambda e, x: 'view::compress(%s, %s, -1)' % (x, e[0])),
+            Node('compress', [k], 'rtv', extra='axr0', rfun=lambda s: ([1, 0, 1] * 4)[:s[0][0]], npf=lambda a, x: np.compress(x, a[0], 0),
+                 cxx=lambda e, x: 'view::compress(%s, %s, 0)' % (x, e[0]))]
+
+
+def op_outer(k1, k2, v1, v2):
+    return [Node('outer_add', [k1, k2], npf=lambda a, _: np.add.outer(a[0], a[1]), cxx=lambda e, _: 'view::outer_add(%s, %s)' % (e[0], e[1]))]
+
+
+GEN_UNARY = [op_tril, op_pool2d, op_resize, op_sliding_window, op_compress]
+GEN_NULLARY = [op_eye, op_tri]
+GEN_BINARY = [op_outer]
+
 MODELLED_UNARY = [op_transpose, op_reshape, op_flatten, op_broadcast_to, op_tile, op_expand_dims, op_squeeze, op_sum, op_negative]
 MODELLED_BINARY = [op_add, op_concatenate]
 # second group (transfer functions in StaticMore.lean); generated for fewer leaf kinds in the quick tier (compile time)
@@ -424,9 +519,14 @@ EXTRA_BINARY = [op_where, op_matmul]
 MODELLED = {'transpose', 'reshape', 'flatten', 'broadcast_to', 'tile', 'expand_dims', 'squeeze', 'sum', 'negative', 'add', 'concatenate',
             'repeat', 'pad', 'cumsum', 'roll', 'flip', 'moveaxis', 'take', 'slice', 'atleast_3d', 'mulscalar', 'where', 'matmul'}
 
-HEADERS = ['transpose', 'reshape', 'flatten', 'broadcast_to', 'tile', 'expand_dims', 'squeeze', 'sum', 'ufuncs/negative', 'ufuncs/add',
-           'concatenate', 'repeat', 'pad', 'cumsum', 'roll', 'flip', 'moveaxis', 'take', 'slice', 'atleast_nd', 'ufuncs/multiply',
-           'ufuncs/mod', 'where', 'matmul']
+# header of each view function; a TU includes only what its programs use (compile time)
+HEADER_OF = {'transpose': 'transpose', 'reshape': 'reshape', 'flatten': 'flatten', 'broadcast_to': 'broadcast_to', 'tile': 'tile',
+             'expand_dims': 'expand_dims', 'squeeze': 'squeeze', 'sum': 'sum', 'negative': 'ufuncs/negative', 'add': 'ufuncs/add',
+             'concatenate': 'concatenate', 'repeat': 'repeat', 'pad': 'pad', 'cumsum': 'cumsum', 'roll': 'roll', 'flip': 'flip',
+             'moveaxis': 'moveaxis', 'take': 'take', 'slice': 'slice', 'atleast_3d': 'atleast_nd', 'mulscalar': 'ufuncs/multiply',
+             'where': 'where', 'matmul': 'matmul', 'eye': 'eye', 'tri': 'tri', 'tril': 'tril', 'triu': 'triu', 'max_pool2d': 'pooling',
+             'avg_pool2d': 'pooling', 'resize': 'resize', 'sliding_window': 'sliding_window', 'compress': 'compress', 'outer_add': 'ufuncs/add'}
+BASE_HEADERS = ['ufuncs/add', 'ufuncs/mod']
 
 
 # ------------------------------------------------------------------------------------------------
@@ -530,7 +630,7 @@ def nominal(node):
 
 
 def unary_variants(facts, kid):
-    v = nominal(kid)
+    v = nominal(kid) if not kid.is_leaf else tuple(kid.P)
     out = []
     for f in facts:
         try:
@@ -607,6 +707,19 @@ def build_programs(tier):
                     add(n)
                 for n in binary_variants([op_matmul], Leaf(k1, (2, 3)), Leaf(k2, (3, 2))):
                     add(n)
+    # view kinds without a Lean transfer: every op variant x every leaf kind (depth 1); eye / tri have no array operand
+    for kind in (('cs', 'cl', 'fd', 'bd', 'dy') if tier == 'quick' else kinds):
+        for P in ((2, 3), (4, 4)) if tier != 'quick' else ((3, 4),):
+            for n in unary_variants(GEN_UNARY, Leaf(kind, P)):
+                add(n)
+    for n in unary_variants(GEN_NULLARY, Leaf('dy', (2, 3))):
+        add(n)
+    for k1 in kinds:
+        for k2 in partners:
+            if tier == 'quick' and k2 != 'cs' and k1 not in ('cs', 'cl'):
+                continue
+            for n in binary_variants([op_outer], Leaf(k1, (2, 3)), Leaf(k2, (2,))):
+                add(n)
     # where(c, c, y) with a one-element condition: the class of the known finding C11.where-tripled-fixed-size (fdf partner)
     # and its sound neighbours (bounded / constant-shape / dynamic partner)
     for k1, P1 in (('fdf', (1, 1)), ('cs', (1, 1)), ('cs', (1,))):
@@ -694,7 +807,12 @@ def write_tus(progs, tier, outdir):
     res = []
     for k, b in enumerate(buckets):
         src = ['// generated by harness/gen_c11.py — do not edit', '#include "c11_support.hpp"']
-        src += ['#include "nmtools/array/view/%s.hpp"' % h for h in HEADERS]
+        hs = list(BASE_HEADERS)
+        for p in b:
+            for n in p.nodes:
+                if HEADER_OF[n.name] not in hs:
+                    hs.append(HEADER_OF[n.name])
+        src += ['#include "nmtools/array/view/%s.hpp"' % h for h in hs]
         for p in b:
             src.append(p.cxx_function())
         src.append('std::string handle(const std::string& op, const proto::Args& a) {')
